@@ -109,14 +109,7 @@ Proof.
 Qed.
 
 (* ------------------------------------------------------------------ one operation *)
-(* the operations covered so far, with operands the constructors build *)
-Definition covered (o : aop) : bool :=
-  match o with
-  | APush e | AInsert _ e | AReplace _ e => forallb new_only e
-  | ARemoveEntry _ => true
-  | ASetArchqual _ _ _ | ASetVersion _ _ _ | ADropConstraint _ _ | ARemoveRelation _ _ => true
-  | _ => false
-  end.
+Notation covered := aop_plain.
 
 Lemma count_entries_cfield f : count_if is_entry (children (cfield_tree f)) = length f.
 Proof.
@@ -131,7 +124,7 @@ Lemma op_step f o st : plain_field f = true -> covered o = true -> aop_in_range 
               plain_field (astep f o) = true.
 Proof.
   intros Hp Hc Hr (ts & tid & ri & a & b & c & d & -> & HT).
-  destruct o; cbn [covered] in Hc; try discriminate.
+  destruct o; cbn [aop_plain] in Hc; try discriminate.
   - (* push *)
     destruct (new_entry_runs e ts tid ri _ a b c d Hc HT) as (ts1 & te & txt & R1 & T1 & E1 & Ne).
     eexists. split; [|split].
@@ -216,4 +209,54 @@ Proof.
     destruct (IH _ st1 P1 Hc2 Hr2 H1) as (st' & R2 & H2 & P2).
     exists st'. split; [|split; assumption].
     unfold compile_all. cbn [flat_map]. eapply run_ops_app; [exact R1|exact R2].
+Qed.
+
+Lemma holds_root_tree st T : holds st T -> root_tree st = Ok T /\ root_text st = Ok (text T).
+Proof.
+  intros (ts & tid & ri & a & b & c & d & -> & HT). unfold root_tree, root_text, st5.
+  assert (R : runs (node_of_reg 0) (mk_state ts [Some (mk_hnd tid []); a; b; c; d]) T
+                   (mk_state ts [Some (mk_hnd tid []); a; b; c; d])).
+  { unfold node_of_reg. rbind; [apply runs_get_reg; reflexivity|]. eapply runs_node_of; [exact HT|reflexivity]. }
+  unfold runs in R. now rewrite R.
+Qed.
+
+(* the constructor-level theorem: every in-range history of the eight operations, from any
+   constructor-built field, through handles obtained from the current root *)
+Theorem history_constructed ops f st :
+  plain_field f = true -> forallb aop_plain ops = true -> hist_in_range f ops = true ->
+  state_with_root st (cfield_tree f) ->
+  let f' := fold_left astep ops f in
+  exists st', run_ops fixed (compile_all ops) st = Ok st' /\
+              state_with_root st' (cfield_tree f') /\
+              root_tree st' = Ok (cfield_tree f') /\
+              structure (cfield_tree f') = Ok f' /\
+              root_text st' = Ok (render_field f').
+Proof.
+  intros Hp Hc Hr Hs f'. apply holds_state_with_root in Hs.
+  destruct (history_holds ops f st Hp Hc Hr Hs) as (st' & R & H & P).
+  exists st'. destruct (holds_root_tree _ _ H) as [RT RX].
+  repeat split; auto.
+  - now apply holds_state_with_root.
+  - now apply structure_cfield.
+  - rewrite RX. now rewrite text_cfield.
+Qed.
+
+(* the same from the states the constructors produce *)
+Theorem history_from_constructors ops f :
+  forallb (forallb new_only) f = true -> forallb aop_plain ops = true -> hist_in_range f ops = true ->
+  let f' := fold_left astep ops f in
+  exists st0 st', init_state fixed (IFromVec (map entry_spec f)) = Ok st0 /\
+                  root_tree st0 = Ok (cfield_tree f) /\
+                  run_ops fixed (compile_all ops) st0 = Ok st' /\
+                  root_tree st' = Ok (cfield_tree f') /\
+                  structure (cfield_tree f') = Ok f' /\
+                  root_text st' = Ok (render_field f').
+Proof.
+  intros Hn Hc Hr f'. destruct (init_from_vec f Hn) as (st0 & I0 & H0).
+  assert (Hp : plain_field f = true).
+  { unfold plain_field. clear -Hn. induction f as [|e f IH]; [reflexivity|]. cbn in *.
+    apply andb_prop in Hn. destruct Hn as [H1 H2]. now rewrite new_only_plain, IH. }
+  destruct (history_constructed ops f st0 Hp Hc Hr (proj1 (holds_state_with_root _ _) H0))
+    as (st' & R & _ & RT & S & RX).
+  exists st0, st'. repeat split; auto. now destruct (holds_root_tree _ _ H0).
 Qed.
